@@ -88,11 +88,7 @@ class DiskBase(MappedSketch, abc.ABC):
             points_1 = points[: spl_len // 2 - 1]
             points_2 = points[1 + spl_len // 2 :]
 
-            if i == 2:
-                points_1.reverse()
-            if i == 1:
-                points_2.reverse()
-
+            # (the points run in the direction of the edges they are given to, the closing edge 3-0 included)
             curve_1 = Spline(points_1)
             curve_2 = Spline(points_2)
 
